@@ -61,3 +61,32 @@ def min_count(ctx, files, floor=1):
                 ctx.ob("ALG.min-count", c, f"{qn}: `{unparse(c)}` -- valid iff count >= minimum, missing iff count < minimum", ok, "" if ok else "off by one against pandas: exactly `minimum` observations are enough for a result")
     ctx.count("min_count_comparisons", n)
     ctx.floor("min_count_comparisons", floor)
+
+
+VALUE_OPTIONS = ("skipna", "dropna", "fn", "order", "corr", "b", "ddof_ignored")
+
+
+def kwargs_consistent(ctx, files, floor=4):
+    """PHASE.kwargs: an option that changes the VALUE of a partial result (skipna, dropna, fn, order, corr,
+    b) and is handed to the chunk phase is handed to every later phase whose keyword dict is spelled out."""
+    n = 0
+    for rel in files:
+        mod = ctx.model.module(rel)
+        for qn, c in mod.classes():
+            lit = {}
+            for st in c.body:
+                if isinstance(st, ast.FunctionDef) and st.name in ("chunk_kwargs", "combine_kwargs", "aggregate_kwargs"):
+                    for r in returns(st):
+                        d = dict_literal_keys(r.value)
+                        if d is not None:
+                            lit[st.name] = (st, set(map(str, d)))
+            if "chunk_kwargs" not in lit:
+                continue
+            opts = lit["chunk_kwargs"][1] & set(VALUE_OPTIONS)
+            for phase in ("combine_kwargs", "aggregate_kwargs"):
+                if phase in lit and opts:
+                    n += 1
+                    missing = sorted(opts - lit[phase][1])
+                    ctx.ob("PHASE.kwargs", lit[phase][0], f"{qn}.{phase} passes on {sorted(opts)} like chunk_kwargs", not missing, "" if not missing else f"{missing} reach the chunk phase but not this one: partial results are merged with the default setting (e.g. NaN skipped although skipna=False was asked for)")
+    ctx.count("phase_kwargs_dicts", n)
+    ctx.floor("phase_kwargs_dicts", floor)
